@@ -163,6 +163,61 @@ theorem step_progress (r : Bool) (key : Nat → Nat) (s : St) (t : Nat) :
     · exact ⟨idx (key t) s.table, by simp [St.set]⟩
     · exact ⟨s.table.length, by simp⟩
 
+/-! ## every operation finishes -/
+
+theorem step_other (r : Bool) (key : Nat → Nat) (s : St) (t u : Nat) (h : u ≠ t) :
+    (step r key s t).pc u = s.pc u := by
+  unfold step
+  split
+  · split <;> simp [St.set, h]
+  · split <;> simp [St.set, h]
+  · rfl
+
+theorem step_done_stable (r : Bool) (key : Nat → Nat) (s : St) (t u i : Nat) (h : s.pc u = .done i) :
+    (step r key s t).pc u = .done i := by
+  by_cases hut : u = t
+  · subst hut
+    unfold step
+    rw [h]
+    simp only
+    exact h
+  · rw [step_other r key s t u hut, h]
+
+theorem run_done_stable (r : Bool) (key : Nat → Nat) : ∀ (sched : List Nat) (s : St) (u i : Nat),
+    s.pc u = .done i → (run r key s sched).pc u = .done i
+  | [], _, _, _, h => h
+  | t :: rest, s, u, i, h => run_done_stable r key rest _ u i (step_done_stable r key s t u i h)
+
+/-- a thread that is scheduled twice has finished, whatever the others did -/
+theorem run_finishes (r : Bool) (key : Nat → Nat) : ∀ (sched : List Nat) (s : St) (t : Nat),
+    (s.pc t = .start → 2 ≤ sched.count t → ∃ i, (run r key s sched).pc t = .done i)
+    ∧ (s.pc t = .missed → 1 ≤ sched.count t → ∃ i, (run r key s sched).pc t = .done i)
+  | [], s, t => ⟨fun _ h => by simp at h, fun _ h => by simp at h⟩
+  | u :: rest, s, t => by
+    have ih := run_finishes r key rest (step r key s u) t
+    by_cases hut : u = t
+    · subst hut
+      have hp := step_progress r key s u
+      constructor
+      · intro hs hc
+        simp only [List.count_cons_self] at hc
+        cases hp.1 hs with
+        | inl hm => exact ih.2 hm (by omega)
+        | inr hd => obtain ⟨i, hd⟩ := hd; exact ⟨i, run_done_stable r key rest _ u i hd⟩
+      · intro hs _
+        obtain ⟨i, hd⟩ := hp.2 hs
+        exact ⟨i, run_done_stable r key rest _ u i hd⟩
+    · have hpc : (step r key s u).pc t = s.pc t := step_other r key s u t (fun h => hut h.symm)
+      have hcount : (u :: rest).count t = rest.count t := by
+        simp [hut]
+      constructor
+      · intro hs hc
+        rw [hcount] at hc
+        exact ih.1 (by rw [hpc]; exact hs) hc
+      · intro hs hc
+        rw [hcount] at hc
+        exact ih.2 (by rw [hpc]; exact hs) hc
+
 /-! ## the observation checker -/
 
 theorem consistent_iff (obs : List (Nat × Nat)) :
